@@ -280,6 +280,7 @@ class Sim:
         self.status: list = []
         self.recv_after_close_returned = 0
         self.closing_from_callback = False
+        self.sends_from_status_callback = 0
         self._reply_msg = None
         self.replies_sent = 0
         self.callbacks_replaced = False
@@ -390,6 +391,13 @@ class Sim:
             await asyncio.sleep(0.3)
         if self.status_cb_mode == "slow_closed" and state.name == "CLOSED":
             await asyncio.sleep(0.3)
+        if self.status_cb_mode == "send_on_disconnected" and state.name == "DISCONNECTED":
+            # the application reacts to the loss by sending something from inside the status callback (it will fail,
+            # quietly; what matters is that the client does not wait for itself)
+            from .checks.c13 import make_send_message
+            self.sends_from_status_callback += 1
+            if self.sends_from_status_callback <= 3:
+                await self.client.send(make_send_message(self.kind))
         if self.status_cb_mode == "close_on_disconnected" and state.name == "DISCONNECTED" and not self.closing_from_callback:
             # the application gives up at the first loss: it calls close() from inside the status callback
             self.closing_from_callback = True
